@@ -93,9 +93,18 @@ def serialize_impl(case):
         root = trees.build_api(case["tree"])
     keep = list(root.iterate_descendants())  # noqa: F841
     node = node_at(root, case.get("path", ()))
-    before = trees.extract(node)
     fo = FormatOptions(align_attributes=case["align"], indentation=case["indent"], width=case["width"])
     decls = S.decls_from_items(case["decls"])
+    if case.get("flip") is not None:
+        # the tree is serialized once, then an xml:space directive is changed to "preserve" through the attribute object
+        # (the tree stays whitespace-reduced: preserved regions are not touched by the reduction) and it is serialized again
+        try:
+            node.serialize(format_options=fo, namespaces=decls)
+        except Exception:  # noqa: BLE001
+            pass
+        target = node_at(root, case["flip"])
+        target.attributes[(trees.XML_NS, "space")].value = "preserve"
+    before = trees.extract(node)
     try:
         res = {"out": node.serialize(format_options=fo, namespaces=decls)}
     except Exception as e:  # noqa: BLE001
